@@ -236,6 +236,20 @@ func main() {
 		jobs = append(jobs, job{Name: "basm-directed-dynamic-opcodes-5cps", Tool: "basm", Class: "directed", Files: map[string]string{"in.basm": sb.String()},
 			Args: []string{"-o", "out.json", "-dump-requirements", "req.json", "in.basm"}, Outputs: []string{"out.json", "req.json"}})
 	}
+	// directed: one template fragment called from five sections with different parameters (the
+	// expansion of one caller must not leak into another, whatever order the sections are visited in)
+	{
+		var sb strings.Builder
+		sb.WriteString("%meta bmdef global registersize:8\n%fragment setk default_k:1\n\trset r1, {{ .Params.k }}\n\tinc r1\n%endfragment\n")
+		for c, k := range []int{5, 9, 3, 6, 12} {
+			fmt.Fprintf(&sb, "%%section t%d .romtext iomode:async k:%d\n\tentry _start\n_start:\n\tclr r0\n\tcall8s setk\n\tr2o r1, o0\n\tj _start\n%%endsection\n", c, k)
+		}
+		for c := 0; c < 5; c++ {
+			fmt.Fprintf(&sb, "%%meta cpdef tcp%d romcode: t%d, execmode:ha\n%%meta ioatt to%d cp:tcp%d, index:0, type:output\n%%meta ioatt to%d cp:bm, index:%d, type:output\n", c, c, c, c, c, c)
+		}
+		jobs = append(jobs, job{Name: "basm-directed-template-fragment-5callers", Tool: "basm", Class: "directed", Files: map[string]string{"in.basm": sb.String()},
+			Args: []string{"-o", "out.json", "-dump-requirements", "req.json", "in.basm"}, Outputs: []string{"out.json", "req.json"}})
+	}
 	// ---- neuralbond ----
 	neurons, _ := filepath.Glob("/repo/library/neurons/*.basm")
 	if r := os.Getenv("VERIF_REPO"); r != "" && r != "/repo" {
